@@ -286,6 +286,23 @@ def trie_shard(cname, hpi, dt, refrac_t, lock, adapt, T):
             return
         s0 = snap()
         l0 = tolist(s0)
+        if depth >= 1:
+            # clear() in the middle of a run (every reachable state): back to rest, out of the refractory period, spike flag
+            # down, learned adaptation untouched - the next step then follows the contract from the resting state
+            try:
+                n.clear()
+                tally.add("clear_states")
+                v, r = n.voltage.reshape(-1).tolist(), n.refrac.reshape(-1).tolist()
+                a1 = get_adapt(n, cname)
+                if any(abs(x - ref.rest) > 1e-6 for x in v) or any(x != 0 for x in r):
+                    tally.violation(f"clear-not-resting:{cname}", {**cfg, "letters": hist, "inputs": inputs_hist},
+                                    f"after clear(): voltage {v} (rest {ref.rest}), remaining refractory {r}", [ref.rest, 0.0], [v, r])
+                elif refrac_t > 0 and bool(n.spike.any()):
+                    tally.violation(f"clear-spike-flag:{cname}", {**cfg, "letters": hist, "inputs": inputs_hist}, "after clear() the spike attribute is still set")
+                if s0[2] is not None and not torch.equal(a1, s0[2]):
+                    tally.violation(f"clear-changed-adaptation:{cname}", {**cfg, "letters": hist, "inputs": inputs_hist}, "clear() changed the learned adaptation")
+            except Exception as ex:
+                tally.violation(f"exception:clear:{cname}:{type(ex).__name__}", {**cfg, "letters": hist}, repr(ex))
         for li in range(nL):
             restore(s0)
             # element 0 gets letter li, element 1 the alphabet rotated by one
